@@ -103,6 +103,29 @@ def parse_outcome(s, tol, ctx):
     return 'tree', soup, None
 
 
+# one fault of a known kind -> the diagnostic class the statement names
+DIAG_CONTEXTS = {
+    'top': ('', ''), 'text': ('pre ', ' post'), 'group': ('{g ', ' h}'),
+    'env': ('\\begin{center}c ', ' d\\end{center}'),
+    'brace-arg': ('\\outer{p ', ' q}'), 'bracket-arg': ('\\outer[p ', ' q]'),
+    'item': ('\\begin{itemize}\\item one ', ' two\\end{itemize}'),
+    'nested': ('\\begin{a}\\outer{{ ', ' }}\\end{a}'),
+}
+DIAG_FAULTS = {
+    # an unclosed environment or math region
+    'EOFError': ['\\begin{zz}x', '\\begin{zz}x\\end{yy}', '\\begin{zz}\\begin{b}y\\end{b}',
+                 '$x', '$$x', '\\[x', '\\(x', '\\begin{equation}x', '$x$$', '\\[x\\)',
+                 '\\begin{verbatim}x', '\\begin{zz}[o]{r}x', '\\begin{align*}a&b'],
+    # a malformed (unclosed) argument or group
+    'TypeError': ['\\foo{x', '\\foo[x', '{x', '\\foo{a}{x', '\\foo[a]{x', '{a{b}',
+                  '\\item[x', '\\foo{\\bar{x}'],
+    # a \begin without a name, an \item in math mode
+    'AssertionError': ['\\begin x', '\\begin', '\\begin\n\n{a}', '$\\item$', '\\[a \\item b\\]',
+                       '\\begin{equation}\\item\\end{equation}',
+                       '\\begin{align*}x\\\\\\item\\end{align*}', '\\begin.'],
+}
+
+
 class C06(Prop):
     id = 'C06'
     level = 'fault_enumeration'
@@ -113,7 +136,10 @@ class C06(Prop):
             'commands) up to 14 tokens; (iv) every prefix, single-character '
             'deletion, sampled insertion and adjacent transposition of W1 '
             'documents; (v) nesting towers of 14 kinds to depth 40, closed and '
-            'truncated after every unit. non-trivial = length >= 2 ; distinct '
+            'truncated after every unit; (vi) one fault of a known kind (unclosed '
+            'environment / math region, unclosed argument or group, nameless '
+            '\\begin, \\item in math) in 8 contexts: the diagnostic class the '
+            'statement names for it. non-trivial = length >= 2 ; distinct '
             '= by content')
     assumptions = (
         'diagnostic = EOFError/TypeError/AssertionError raised by an explicit '
@@ -169,6 +195,17 @@ class C06(Prop):
                 k += 1
                 if want(k):
                     yield k, {'s': m, 'w': 'fault:' + kind}
+        # (vi) which diagnostic for which fault: one fault of a known kind
+        # in every context; strict mode must raise exactly the class the
+        # statement names for it
+        for exp, faults_ in DIAG_FAULTS.items():
+            for f in faults_:
+                for cname in DIAG_CONTEXTS:
+                    k += 1
+                    if want(k):
+                        c0, c1 = DIAG_CONTEXTS[cname]
+                        yield k, {'s': c0 + f + c1, 'w': 'diag-class', 'expect': exp,
+                                  'fault': f, 'ctx': cname}
         import itertools as _it
         units = [(o,) for o in mutgen.GROWTH_OPEN]
         units += list(_it.product(mutgen.GROWTH_OPEN, repeat=2)) if not q else \
@@ -256,10 +293,23 @@ class C06(Prop):
                 ctx.seen('tower_kind', p['w'])
             if f:
                 fails.append(f)
+            if p['w'] == 'diag-class' and not f:
+                got = 'tree' if kind == 'tree' else type(obj).__name__
+                ctx.count('diag_class_checked')
+                # strict mode: exactly the named class; tolerant mode may repair
+                # lost closers, but a nameless \begin, an \item in math and an
+                # unclosed inline/display region stay errors of the same class
+                if tol == 0 and got != p['expect']:
+                    fails.append(fail('wrong-diagnostic', 'strict parsing of %s (%s in context %s) gives %s, '
+                                      'the statement names %s for it'
+                                      % (short(repr(s), 100), p['fault'], p['ctx'], got, p['expect']), tol=0))
+                if tol == 1 and got not in ('tree', p['expect']):
+                    fails.append(fail('wrong-diagnostic', 'tolerant parsing of %s gives %s (expected a tree or %s)'
+                                      % (short(repr(s), 100), got, p['expect']), tol=1))
         return fails
 
     def shrink(self, p, still_fails):
-        if len(p['s']) > 3000 or p['w'].startswith('tower') or p['w'] == 'growth':
+        if len(p['s']) > 3000 or p['w'].startswith('tower') or p['w'] in ('growth', 'diag-class'):
             return p
         return common.shrink_text(p, still_fails, key='s', budget=250)
 
@@ -274,6 +324,8 @@ class C06(Prop):
             g.append('progress monitors evaluated too rarely')
         if c.get('loop_iterations_observed', 0) < 1000000:
             g.append('loop-iteration monitor observed fewer than 10^6 backward jumps')
+        if c.get('diag_class_checked', 0) < 400:
+            g.append('diagnostic-class oracle evaluated fewer than 400 times')
         if c.get('growth_shapes_measured', 0) < 500:
             g.append('growth oracle measured fewer than 500 nesting shapes')
         if c.get('max:tower_depth', 0) < 40:
